@@ -24,6 +24,7 @@ EXPLANATION = (
   "and xml:space take the element's own value, else the parent's; (NUL-arith) optional temporal quantities are not used in "
   "arithmetic unguarded."
   " (FIN-lwsp, shared with C13) what the reader delivers is observed through snapshots: the white-space step of _process_element interpreted on sample paragraphs, among them preserved spans that end in a tab / line feed / carriage return before default white space;"
+  " (FIN-timeparse) parse_time_expression interpreted on a grid of time expressions (frame labels up to the last one of a second at integer and 1001-based rates, the label one past it refused, offsets in f / t / ms / s / m / h, clock times) equals TTML2 10.3.1;"
   " (FRAME-time) a frame-of-reference typing of ParsingContext.process: the four time positions of a context are relative to the begin of its parent, so the positions of self, of parent_ctx and of a child live on three different axes; every sum, difference, max / min, comparison and store over them stays on one axis or converts by adding / subtracting exactly the origin of the inner axis (self.desired_begin, parent_ctx.desired_begin), and what reaches set_begin / set_end is relative to the parent's begin;"
   " (FIN-timing) the statements that combine begin / dur / end, evaluated over a grid of small rationals and absent attributes, equal TTML timing: begin relative to the implicit begin; end = min(begin + dur, implicit begin + end), else the one present, else the implicit end;"
   " (STATE-alias / STATE-global) no function of the anchored modules mutates a module- or class-level container, rebinds module / class state or mutates a mutable default argument, so a result never depends on earlier calls;"
@@ -565,6 +566,7 @@ def run(ctx):
   check_timing_arithmetic(ctx)
   from ..rules import probes as _probes
   ctx.floor("FIN-lwsp", "sample paragraphs decided", _probes.check_lwsp_block(ctx), 10)
+  ctx.floor("FIN-timeparse", "time expression probes decided", _probes.check_time_expression_probes(ctx), 40)
   from ..rules import frames
   fp = ctx.ix.func(f"{EL}:ContentElement.ParsingContext.process")
   ctx.unit(fp.module)
